@@ -62,6 +62,10 @@ package json
 // query's search path and, for valued queries, trimmed value equal to one of the search values).
 // querySatisfied is proved to be set only when c10_hit is (or when there are no queries).
 //@ ghostvar c10_hit bool
+// fm(qs, path, k): k is the first query whose search path equals path (what the property means by
+// "the member decides"; independent of how, or whether, the code looks the query up)
+//@ spec fm(qs, path, k) = 0 <= k && k < len(qs) && pathEq(qs[k].SearchPath, path) && (forall j :: 0 <= j && j < k ==> !pathEq(qs[j].SearchPath, path))
+//@ spec valHit(q, v) = exists i :: 0 <= i && i < len(q.SearchVals) && q.SearchVals[i] == v
 
 //@ pool parserPool invariant p.maxRecursion == maxRecursion
 
@@ -159,16 +163,16 @@ package json
 //@   loop 1 decreases len(b) - n
 
 //@ func json.(*parserState).consumeObject
-//@   ghost after consumeValue: c10_hit = c10_hit || ($ret1 && queryMatched != -1 && (len(qs[queryMatched].SearchVals) == 0 || (exists v :: 0 <= v && v < len(qs[queryMatched].SearchVals) && qs[queryMatched].SearchVals[v] == trimSpace(b[n:n+$ret0]))))
+//@   ghost after consumeValue: c10_hit = c10_hit || ($ret1 && (exists k :: fm(qs, p.currPath, k) && (len(qs[k].SearchVals) == 0 || valHit(qs[k], trimSpace(b[n:n+$ret0])))))
 //@   ensures [C10_only] p.querySatisfied ==> old(p.querySatisfied) || len(qs) == 0 || c10_hit
 //@   ensures [C10_hit_mono] old(c10_hit) ==> c10_hit
 //@   loop 1 invariant [C10_only_inv] (p.querySatisfied ==> old(p.querySatisfied) || len(qs) == 0 || c10_hit) && (old(c10_hit) ==> c10_hit)
 //@   loop 2 invariant [C10_only_inv2] (p.querySatisfied ==> old(p.querySatisfied) || len(qs) == 0 || c10_hit || (exists v :: 0 <= v && v <= rangeindex && q.SearchVals[v] == trimSpace(b[n:n+valLen]))) && (old(c10_hit) ==> c10_hit)
 //@   ghost entry: c10_due = false
-//@   ghost after consumeValue: c10_due = c10_due || ($ret1 && queryMatched != -1 && len(qs[queryMatched].SearchVals) == 0)
+//@   ghost after consumeValue: c10_due = c10_due || ($ret1 && (exists k :: fm(qs, p.currPath, k) && len(qs[k].SearchVals) == 0))
 //@   ensures [C10_decided] c10_due ==> p.querySatisfied
 //@   ghost entry: c10_dueval = false
-//@   ghost after consumeValue: c10_dueval = c10_dueval || ($ret1 && queryMatched != -1 && (exists v :: 0 <= v && v < len(qs[queryMatched].SearchVals) && qs[queryMatched].SearchVals[v] == trimSpace(b[n:n+$ret0])))
+//@   ghost after consumeValue: c10_dueval = c10_dueval || ($ret1 && (exists k :: fm(qs, p.currPath, k) && valHit(qs[k], trimSpace(b[n:n+$ret0]))))
 //@   ensures [C10_decided_val] c10_dueval ==> p.querySatisfied
 //@   loop 1 invariant [C10_dueval_inv] c10_dueval ==> p.querySatisfied
 //@   loop 1 invariant [C10_due_inv] c10_due ==> p.querySatisfied
